@@ -113,7 +113,11 @@ def lean_stage(pid, cfg, thorough):
     return obligations, discharged, failures, axioms, "\n".join(log)
 
 
-def harness_build(features):
+# alternative builds of the harness (a run whose first word is "@<name>" uses that binary)
+ALT_BUILDS = {"nosparse": dict(args=["--no-default-features"], target="target-nosparse")}
+
+
+def harness_build(features, alts=()):
     lock = os.path.join(HARNESS, "Cargo.lock")
     if not os.path.exists(lock):
         shutil.copy("/repo/Cargo.lock", lock)
@@ -121,7 +125,21 @@ def harness_build(features):
     if features:
         cmd += ["--features", features]
     r = sh(cmd, cwd=HARNESS, timeout=3600)
-    return r.returncode == 0, r.stdout[-3000:]
+    ok, out = r.returncode == 0, r.stdout[-3000:]
+    for a in alts:
+        if not ok:
+            break
+        ab = ALT_BUILDS[a]
+        r = sh(["cargo", "build", "--release", "--offline", "--target-dir", ab["target"]] + ab["args"], cwd=HARNESS, timeout=3600)
+        ok, out = r.returncode == 0, out + "\n[" + a + "] " + r.stdout[-2000:]
+    return ok, out
+
+
+def harness_bin(run):
+    """binary and arguments of a run: ["@nosparse", "configs", ...] uses the alternative build"""
+    if run and run[0].startswith("@"):
+        return os.path.join(HARNESS, ALT_BUILDS[run[0][1:]]["target"], "release", "hcverif"), run[1:]
+    return os.path.join(HARNESS, "target", "release", "hcverif"), run
 
 
 def load_known():
@@ -157,7 +175,7 @@ def main():
     have_drv = os.path.exists(drv) and DRV_OK
 
     # ---- harness
-    ok, blog = harness_build(cfg.get("features", ""))
+    ok, blog = harness_build(cfg.get("features", ""), cfg.get("alt_builds", ()))
     open(os.path.join(work, "cargo.log"), "w").write(blog)
     if not ok:
         print("harness build failed (does /repo still compile?)\n" + blog[-1500:])
@@ -175,7 +193,8 @@ def main():
             rdir = os.path.join(work, f"run{ri}")
             os.makedirs(rdir, exist_ok=True)
             try:
-                r = sh([os.path.join(HARNESS, "target", "release", "hcverif")] + run + ["--out", rdir],
+                hbin, hargs = harness_bin(run)
+                r = sh([hbin] + hargs + ["--out", rdir],
                        cwd=ROOT, timeout=cfg.get("timeout", 3000))
             except subprocess.TimeoutExpired:
                 res["violations"].append(dict(kind="harness", key="harness-timeout", detail="harness timed out: " + " ".join(run), found_input=False, payload=dict(cmd=run)))
